@@ -690,6 +690,54 @@ theorem linearizable?_sound [DecidableEq ο] (step : σ → ι → σ × ο) (s0
     (hc : linearizable? step s0 h = true) : Linearizable step s0 h :=
   search_sound step _ _ _ hc
 
+/-! ### completeness of the executable checker -/
+
+theorem pickEach_of_mem {α : Type} {l : List α} {a : α} (h : a ∈ l) : ∃ rest, (a, rest) ∈ pickEach l := by
+  induction l with
+  | nil => cases h
+  | cons x xs ih =>
+    rcases List.mem_cons.mp h with rfl | h'
+    · exact ⟨xs, by simp [pickEach]⟩
+    · obtain ⟨rest, hr⟩ := ih h'
+      refine ⟨x :: rest, ?_⟩
+      simp only [pickEach, List.mem_cons, List.mem_map]
+      exact Or.inr ⟨(a, rest), hr, rfl⟩
+
+theorem search_complete [DecidableEq ο] (step : σ → ι → σ × ο) (w : List (Rec ι ο)) :
+    ∀ (s : σ) (rem : List (Rec ι ο)), IsLinearization step s rem w → search step rem.length s rem = true := by
+  induction w with
+  | nil =>
+    intro s rem h
+    have : rem = [] := List.Perm.eq_nil (h.perm.symm)
+    subst this
+    simp [search]
+  | cons a w' ih =>
+    intro s rem h
+    have ha : a ∈ rem := h.perm.subset (List.mem_cons_self ..)
+    obtain ⟨rest, hp⟩ := pickEach_of_mem ha
+    have hperm : (a :: rest).Perm rem := pickEach_perm hp
+    have hrest : w'.Perm rest := (List.Perm.cons_inv (h.perm.trans hperm.symm))
+    have hlen : rem.length = rest.length + 1 := by rw [← hperm.length_eq]; simp
+    have hrt := List.pairwise_cons.mp h.realtime
+    have hleg := h.legal
+    simp only [List.map_cons, runSeq, List.cons.injEq] at hleg
+    have hsub : IsLinearization step (step s a.op).1 rest w' := ⟨hrest, hrt.2, hleg.2⟩
+    have := ih _ _ hsub
+    rw [hlen]
+    simp only [search, Bool.or_eq_true, List.any_eq_true, Bool.and_eq_true, List.all_eq_true, decide_eq_true_eq]
+    refine Or.inr ⟨(a, rest), hp, ?_, hleg.1, this⟩
+    intro r' hr'
+    have := hrt.1 r' (hrest.symm.subset hr')
+    simpa using this
+
+theorem linearizable?_complete [DecidableEq ο] (step : σ → ι → σ × ο) (s0 : σ) (h : List (Rec ι ο))
+    (hl : Linearizable step s0 h) : linearizable? step s0 h = true := by
+  obtain ⟨w, hw⟩ := hl
+  exact search_complete step w s0 h hw
+
+theorem linearizable?_iff [DecidableEq ο] (step : σ → ι → σ × ο) (s0 : σ) (h : List (Rec ι ο)) :
+    linearizable? step s0 h = true ↔ Linearizable step s0 h :=
+  ⟨linearizable?_sound step s0 h, linearizable?_complete step s0 h⟩
 /-! ### counters -/
 
 def sumAll (ps : List (List Int)) : Int := (ps.map List.sum).sum
